@@ -128,15 +128,20 @@ SHAPE = ['<rect x="5" y="5" width="60" height="40" fill="red" stroke="black"/>',
          '<g><rect width="30" height="30"/><g opacity="0.5"><circle r="9"/></g></g>',
          '<text x="10" y="40" font-size="20">junk</text>']
 
-SVGTREE_KINDS = ['comment', 'pi', 'ws', 'unknown_elem', 'foreign_elem']
+SVGTREE_KINDS = ['comment', 'pi', 'ws', 'unknown_elem', 'foreign_elem', 'foreign_style_elem']
+KNOWN_KINDS = ['singular']
 CONV_KINDS = ['display_none', 'def', 'cond', 'zero', 'badts']
 ALL_KINDS = SVGTREE_KINDS + CONV_KINDS + ['attr']
 
 
 class Junk:
-    def __init__(self, rng):
+    def __init__(self, rng, text=''):
         self.rng = rng
         self.n = 0
+        # names the document itself uses: class selectors and referenced ids (a foreign-namespace `class` / `id` attribute
+        # that were honoured would then change something)
+        self.classes = sorted(set(re.findall(r"\.([A-Za-z_][\w-]*)\s*[{,:\[>+~ ]", ' '.join(re.findall(r"<(?:\w+:)?style\b[^>]*>(.*?)</", text, re.S))))) or ['a']
+        self.ref_ids = sorted(set(re.findall(r"url\(#([^)\s\"']+)\)", text) + re.findall(r"href=\"#([^\"]+)\"", text))) or ['vf_none']
 
     def nid(self):
         self.n += 1
@@ -164,7 +169,24 @@ class Junk:
         if kind == 'foreign_elem':
             return r.choice(['<vf:junk xmlns:vf="urn:x-vf"><vf:inner k="v"/><rect xmlns="%s" width="50" height="50" fill="red"/></vf:junk>' % SVGNS,
                              '<rect xmlns="urn:x-vf" width="50" height="50" fill="red"/>',
-                             '<g xmlns="urn:x-other">%s</g>' % self.shape()])
+                             '<g xmlns="urn:x-other">%s</g>' % self.shape(),
+                             # foreign-namespace elements whose LOCAL names are real SVG element names
+                             '<vq:rect xmlns:vq="urn:x-q" x="5" y="5" width="150" height="150" fill="red"/>',
+                             '<vq:g xmlns:vq="urn:x-q"><rect xmlns="%s" width="90" height="90" fill="red"/>%s</vq:g>' % (SVGNS, self.shape()),
+                             '<vq:linearGradient xmlns:vq="urn:x-q" id="%s"><vq:stop offset="0" stop-color="red"/></vq:linearGradient>' % self.nid(),
+                             '<vq:use xmlns:vq="urn:x-q" href="#%s" x="10" y="10"/>' % r.choice(self.ref_ids),
+                             '<vq:svg xmlns:vq="urn:x-q" width="80" height="80">%s</vq:svg>' % self.shape(),
+                             '<vq:text xmlns:vq="urn:x-q" x="10" y="60" font-size="40" fill="red">junk</vq:text>',
+                             '<vq:path xmlns:vq="urn:x-q" d="M 0 0 L 150 150 L 0 150 Z" fill="red"/>',
+                             '<vq:clipPath xmlns:vq="urn:x-q" id="%s"><rect width="1" height="1"/></vq:clipPath>' % self.nid(),
+                             '<vq:defs xmlns:vq="urn:x-q"><vq:filter id="%s"/></vq:defs>' % self.nid(),
+                             '<vq:switch xmlns:vq="urn:x-q"><vq:circle r="90" fill="red"/></vq:switch>',
+                             '<circle xmlns="urn:x-q" cx="50" cy="50" r="50" fill="red"/>',
+                             '<svg:rect xmlns:svg="urn:x-not-svg" width="99" height="99" fill="red"/>'])
+        if kind == 'foreign_style_elem':
+            css = r.choice(['* { fill: red !important; stroke: lime; stroke-width: 7 }', 'rect, path, circle, text { display: none }',
+                            'g { opacity: 0.2 } rect { transform: none; fill: #f0f }'])
+            return r.choice(['<vq:style xmlns:vq="urn:x-q">%s</vq:style>' % css, '<style xmlns="urn:x-q" type="text/css">%s</style>' % css])
         if kind == 'display_none':
             i = self.nid()
             return r.choice(['<g display="none" id="%s">%s%s</g>' % (i, self.shape(), self.shape()),
@@ -238,8 +260,22 @@ class Junk:
 
     def make_attr(self):
         r = self.rng
-        return r.choice([' vf-junk="1"', ' data-vf="x y"', ' vf:a="2" xmlns:vf="urn:x-vf"', ' vfunknownattr=""',
-                         ' xmlns:vq="urn:x-q" vq:width="1" vq:transform="scale(0)" vq:display="none"'])
+        if r.below(4) == 0:
+            return r.choice([' vf-junk="1"', ' data-vf="x y"', ' vf:a="2" xmlns:vf="urn:x-vf"', ' vfunknownattr=""'])
+        # foreign-namespace attributes whose LOCAL names are the ones usvg treats specially, with values that would
+        # visibly change the result if they were honoured
+        a = r.choice(['vq:style="fill:red;stroke:lime;stroke-width:9;opacity:0.4"', 'vq:style="display:none"',
+                      'vq:class="%s"' % r.choice(self.classes), 'vq:id="%s"' % r.choice(self.ref_ids),
+                      'vq:transform="translate(40 30) scale(1.5)"', 'vq:transform="scale(0)"',
+                      'vq:fill="red" vq:stroke="blue" vq:stroke-width="12"', 'vq:href="#%s"' % r.choice(self.ref_ids),
+                      'vq:display="none"', 'vq:opacity="0.2"', 'vq:visibility="hidden"',
+                      'vq:d="M 0 0 L 150 150 L 0 150 Z"', 'vq:width="7" vq:height="300"', 'vq:x="60" vq:y="-20"', 'vq:r="3"', 'vq:rx="1" vq:ry="90"',
+                      'vq:points="0 0 99 0 0 99"', 'vq:filter="url(#vf_none)"', 'vq:clip-path="url(#%s)"' % r.choice(self.ref_ids),
+                      'vq:mask="url(#%s)"' % r.choice(self.ref_ids), 'vq:viewBox="0 0 10 10"', 'vq:preserveAspectRatio="none"',
+                      'vq:systemLanguage="xx"', 'vq:requiredExtensions="x"', 'vq:font-size="80"', 'vq:text-anchor="end"',
+                      'vq:offset="0.9" vq:stop-color="red"', 'vq:gradientTransform="scale(0.1)"', 'vq:patternUnits="userSpaceOnUse"',
+                      'vq:marker-start="url(#%s)"' % r.choice(self.ref_ids), 'vq:type="text/x-not-css"', 'vq:space="preserve"'])
+        return ' xmlns:vq="urn:x-q" ' + a
 
 
 def insert_junk(text, rng, kinds, lo=1, hi=8, elements_ok=True):
@@ -247,7 +283,7 @@ def insert_junk(text, rng, kinds, lo=1, hi=8, elements_ok=True):
     points, tags = scan(text)
     if not points:
         return None, []
-    jk = Junk(rng)
+    jk = Junk(rng, text)
     items = []
     for kind in kinds:
         if kind == 'attr':
@@ -299,6 +335,41 @@ DEFS = ('<clipPath id="cpOK"><rect width="500" height="500"/></clipPath>'
 TS_ROWS = {'': (1, 0, 0, 1, 0, 0), 'translate(3 4)': (1, 0, 0, 1, 3, 4), 'scale(0)': (0, 0, 0, 0, 0, 0), 'translate(0)': (1, 0, 0, 1, 0, 0),
            'matrix(1 2 2 4 0 0)': (1, 2, 2, 4, 0, 0), 'scale(0.00000001)': (1e-8, 0, 0, 1e-8, 0, 0), 'scale(0 3)': (0, 0, 0, 3, 0, 0),
            'matrix(0 0 0 0 5 5)': (0, 0, 0, 0, 5, 5), 'scale(0.001)': (0.001, 0, 0, 0.001, 0, 0), 'matrix(0 1 0 0 0 0)': (0, 1, 0, 0, 0, 0)}
+
+
+def positional_docs(rng, n):
+    """documents whose style sheet uses :first-child and the + combinator; only comments, PIs, whitespace and attributes are
+    inserted into these (an inserted ELEMENT legitimately changes positional matching)"""
+    docs = []
+    rules = ['rect:first-child { fill: red }', 'circle + rect { fill: blue }', 'g > path:first-child { stroke: lime; stroke-width: 5 }',
+             'rect + rect { opacity: 0.5 }', 'path + circle { fill: orange }', '* + g { opacity: 0.6 }', 'g:first-child rect { stroke: black; stroke-width: 3 }',
+             'rect + circle + rect { fill: #0ff }', '.k + .k { fill: purple }', 'circle:first-child { display: none }', 'g + g > rect:first-child { fill: yellow }']
+    seps = ['', '', '\n  ', ' ', '\n<!-- existing comment -->\n', '<?existing pi?>', '\n\n\t']
+    for _ in range(n):
+        css = ' '.join(rng.sample(rules, 3 + rng.below(4)))
+        k = [0]
+
+        def elems(depth):
+            out = ''
+            for _ in range(2 + rng.below(4)):
+                k[0] += 1
+                x, y = 10 + rng.below(120), 10 + rng.below(120)
+                t = rng.below(5 if depth < 2 else 4)
+                cls = ' class="k"' if rng.below(3) == 0 else ''
+                if t == 0:
+                    e = '<rect id="e%d"%s x="%d" y="%d" width="40" height="30" fill="green"/>' % (k[0], cls, x, y)
+                elif t == 1:
+                    e = '<circle id="e%d"%s cx="%d" cy="%d" r="18" fill="gray"/>' % (k[0], cls, x, y)
+                elif t == 2:
+                    e = '<path id="e%d"%s d="M %d %d l 40 10 l -20 30 z" fill="teal"/>' % (k[0], cls, x, y)
+                elif t == 3:
+                    e = '<rect id="e%d"%s x="%d" y="%d" width="25" height="25"/>' % (k[0], cls, x, y)
+                else:
+                    e = '<g id="e%d">%s</g>' % (k[0], elems(depth + 1))
+                out += rng.choice(seps) + e
+            return out + rng.choice(seps)
+        docs.append('<svg %s width="200" height="200"><style>%s</style>%s</svg>' % (NS, css, elems(0)))
+    return docs
 
 
 def cstr(s):
@@ -528,7 +599,8 @@ def run(ctx):
         "leaf converters (convert_path styling, image, text, use_node, clip/mask/filter resolution), roxmltree, simplecss: abstract in the model, "
         "exercised by the correspondence and the insertion oracle only",
     ]
-    ctx.assumptions = ["no positional CSS selectors (:first-child, sibling combinators): inserted elements legitimately change matching there",
+    ctx.assumptions = ["documents with positional CSS selectors (:first-child, sibling combinators) receive comments, PIs, whitespace and attributes only: "
+                       "an inserted ELEMENT legitimately changes positional matching",
                        "inserted ids come from the reserved namespace vf_*; the 64-bit string hash of Cache::all_ids is collision-free on the document's ids",
                        "insertions only where all ancestors are container elements (svg, g, defs, symbol, marker, mask, pattern, clipPath, a); "
                        "never inside text content or switch",
@@ -544,7 +616,7 @@ def run(ctx):
         return
 
     files = vlib.corpus_files()
-    wit = [os.path.join(vlib.VERIF, 'corpus', 'witness', f) for f in ('F26.svg',)]
+    wit = [os.path.join(vlib.VERIF, 'corpus', 'witness', f) for f in ('F26.svg', 'C11-foreign-style.svg')]
     nfiles = 800 if quick else len(files)
     sample = rng.sample(files, nfiles) if nfiles < len(files) else list(files)
     # files that always take part: anything about switch / systemLanguage / style / use / nested svg / markers
@@ -554,6 +626,15 @@ def run(ctx):
     sample = sorted(set(sample + always)) + [w for w in wit if os.path.exists(w)]
 
     texts = {}
+    for f in files:
+        if f in sample:
+            continue
+        try:
+            t = open(f, encoding='utf-8').read()
+        except (OSError, UnicodeDecodeError):
+            continue
+        if positional_css(t):
+            sample.append(f)        # the corpus has few documents with positional selectors: always all of them
     for f in sample:
         try:
             t = open(f, encoding='utf-8').read()
@@ -569,10 +650,13 @@ def run(ctx):
         kids = sk.doc()
         xml = '<svg %s width="200" height="200">%s%s</svg>' % (NS, DEFS, ''.join(skel_xml(k) for k in kids))
         skels.append((kids, xml))
+    pdocs = positional_docs(rng, 60 if quick else 500)
+    generated = [("gen%d" % i, x) for i, (_, x) in enumerate(skels)] + [("pos%d" % i, x) for i, x in enumerate(pdocs)]
+    ctx.cov['positional_css_documents'] = len(pdocs) + sum(1 for t in texts.values() if positional_css(t))
 
     # ------------------------------------------------------------------ K1 svgtree-filter
     cases = []
-    for f, t in list(texts.items()) + [("gen%d" % i, x) for i, (_, x) in enumerate(skels)]:
+    for f, t in list(texts.items()) + generated:
         elems_ok = not positional_css(t)
         bt, items = insert_junk(t, rng, SVGTREE_KINDS + ['attr'], elements_ok=elems_ok)
         if bt is None or not items:
@@ -671,7 +755,7 @@ def run(ctx):
     # ------------------------------------------------------------------ S e2e-C11
     cases = []
     kinds_hist = {}
-    for f, t in list(texts.items()) + [("gen%d" % i, x) for i, (_, x) in enumerate(skels)]:
+    for f, t in list(texts.items()) + generated:
         elems_ok = not positional_css(t)
         for rep in range(1 if quick else 2):
             bt, items = insert_junk(t, rng, ALL_KINDS, elements_ok=elems_ok)
@@ -682,6 +766,14 @@ def run(ctx):
             isfile = f.startswith('/')
             cases.append(dict(name=f, opts=('res=%s' % os.path.dirname(f)) if isfile else '-', a=('@' + f) if isfile else hexdoc(t),
                               b_text=bt, items=items, base_text=t))
+    # regression inputs: the witness with / without its non-rendered element
+    wpath = os.path.join(vlib.VERIF, 'corpus', 'witness', 'C11-foreign-style.svg')
+    if os.path.exists(wpath):
+        wt = open(wpath).read()
+        m = re.search(r'\s*<x:style\b.*?</x:style>', wt, flags=re.S)
+        if m:
+            base = wt[:m.start()] + wt[m.end():]
+            cases.append(dict(name=wpath, opts='-', a=hexdoc(base), b_text=wt, items=[(m.start(), 'foreign_style_elem', m.group(0))], base_text=base))
     bad = check_pairs(ctx, binp, 'e2e', cases)
     ctx.cov['e2e_cases'] = len(cases)
     ctx.cov['e2e_insertions_by_kind'] = kinds_hist
@@ -751,8 +843,10 @@ def run(ctx):
                       dict(failed_files=res['failed'], audit=res['audit'], broken_ties=broken, log_tail=res['log'][-3000:]),
                       found_input=False)
     ctx.cov['rule'] = ("svgtree-filter / e2e: corpus files (quick: ~300 sampled + structure/style/switch/clipPath/marker files; thorough: all) and generated "
-                       "documents, each with 1..8 insertions of every kind (comment, PI, whitespace, unknown element, foreign-namespace element, "
-                       "unknown/foreign attribute, display:none subtree, unreferenced definition of 9 sorts, failing conditional attribute, zero-size "
+                       "documents (incl. 60/500 documents with :first-child / + style sheets, which receive comments, PIs, whitespace and attributes only), "
+                       "each with 1..8 insertions of every kind (comment, PI, whitespace, unknown element, foreign-namespace element - also with the local "
+                       "names of real SVG elements -, unknown attribute, foreign-namespace attribute whose local name is style/class/id/transform/fill/href/"
+                       "display/opacity/d/width/... with an effective value, display:none subtree, unreferenced definition of 9 sorts, failing conditional attribute, zero-size "
                        "shape with group-forming attributes, non-invertible transform) at random structural positions; convert-skel: random element "
                        "trees (7 shapes, g, switch, defs-like) x random attributes (display, transform, opacity, blend, isolation, clip/mask/filter "
                        "valid/invalid/missing, conditional attributes, valid/invalid geometry).  Non-trivial: the rendering of the original is not blank; "
